@@ -10,7 +10,8 @@ RULE = ('random worlds emphasising several result events per test (body + tearDo
         'in children; non-trivial = a test producing at least two result events or a layer fault')
 TRUSTED_BASE = COMMON_TRUSTED
 ASSUMPTIONS = COMMON_ASSUMPTIONS + ['exception classes: Exception subclasses (AssertionError, KeyError, ValueError) and SystemExit inside tests; '
-                                    'KeyboardInterrupt is meant to abort and is covered by C18']
+                                    'KeyboardInterrupt is meant to abort and is covered by C18',
+                                    'the stdout of the runner is a strict UTF-8 stream (like a file or a pipe); some exception messages cannot be encoded for it']
 
 
 def generate(rng, tier, rep):
@@ -33,6 +34,10 @@ def generate(rng, tier, rep):
                                      {'body': 'error', 'cleanups': ['error', 'fail']}, {'setUp': 'error', 'cleanups': ['error']},
                                      {'body': 'exit', 'tearDown': 'fail'}, {'xf': True, 'tearDown': 'error'},
                                      {'subs': ['fail', 'ok'], 'redirect_sub': True}, {'subs': ['error'], 'redirect_sub': True, 'body': 'fail'}]))
+        for T in c['tests']:
+            # exception messages that the output stream cannot encode (lone surrogates) or that contain control characters
+            if T.get('body') in ('fail', 'error') and rng.random() < 0.25:
+                T['body'] = [T['body'], rng.choice(['\ud800 unencodable', 'nul \x00 bell \x07', 'z\udfff', 'caf\xe9 \u4e2d'])]
         for T in c['tests']:
             if rng.random() < 0.2 and not T.get('deco_skip'):
                 # arbitrary bytes through sys.stdout.buffer (the capture stream has a .buffer too)
